@@ -80,52 +80,56 @@ def run_config(run, prop, name, consts, wd, spec, *, caching=False, vertex_cls=N
     t0 = time.time()
     gen = ST.generate(name, consts, wd, simulate=simulate, depth=depth, seed=seed)
     run.add_model(name, gen, {k: (sorted(v) if isinstance(v, set) else v) for k, v in consts.items()})
-    calls_at, states = explore.parse_transitions(gen["json"])
-    del gen
+    index = gen.pop("index")
     init = ST.base_state(consts)
     t1 = time.time()
-    _, confirmed, st, probed = explore.explore(consts, init, calls_at, states, caching=caching, probe=spec,
-                                               vertex_cls=vertex_cls, keep_records=False, probe_filter=probe_filter)
+    agg = {"bad": 0, "judge_s": 0.0, "chunks": 0, "sampled": False}
+
+    def probe_sink(probed):
+        tj = time.time()
+        agg["chunks"] += 1
+        verdicts = judge(prop, consts, probed, wd, f"{name}-{agg['chunks']}")
+        agg["judge_s"] += time.time() - tj
+        by_id = {r["id"]: r for r in probed}
+        for v in verdicts:
+            r = by_id[v["id"]]
+            for j, e in zip(v["bad"], v["exp"]):
+                p = r["probes"][j - 1]
+                agg["bad"] += 1
+                cls = P.probe_class(r["S"], p)
+                run.violation(f"{cls}|Answer",
+                              f"{p['q']}{p['a']} f={p['f']['t']} answered {p['res']} but the specification says {e}",
+                              {"kind": "query", "config": name,
+                               "consts": {k: (sorted(x) if isinstance(x, set) else x) for k, x in consts.items()},
+                               "caching": caching, "vertex_cls": vertex_cls, "path": r["path"], "state": r["S"],
+                               "probe": {k: p[k] for k in ("q", "a", "f", "g", "M", "attr")},
+                               "observed": p["res"], "expected": e})
+            for rel in v.get("rel", []):
+                agg["bad"] += 1
+                run.violation(f"{prop}:{rel}|Relational", f"logged answers in state {r['S']['ends']} violate {rel}",
+                              {"kind": "query-rel", "config": name, "path": r["path"], "state": r["S"], "rel": rel,
+                               "consts": {k: (sorted(x) if isinstance(x, set) else x) for k, x in consts.items()},
+                               "caching": caching, "vertex_cls": vertex_cls, "spec": spec})
+        for r in probed:
+            for p in r["probes"]:
+                run.count_class(P.probe_class(r["S"], p))
+                run.evaluations += 1
+        run.traces += len(probed)
+        if not agg["sampled"]:
+            for r in probed:
+                if r["probes"]:
+                    agg["sampled"] = True
+                    run.sample({"config": name, "state": {k: r["S"][k] for k in ("kind", "ends", "vl")},
+                                "probe": r["probes"][len(r["probes"]) // 2]})
+                    break
+
+    _, confirmed, st, _ = explore.explore(consts, init, index, index, caching=caching, probe=spec, vertex_cls=vertex_cls,
+                                          keep_records=False, probe_filter=probe_filter, probe_sink=probe_sink)
     t2 = time.time()
-    verdicts = judge(prop, consts, probed, wd, name)
-    t3 = time.time()
-    by_id = {r["id"]: r for r in probed}
-    nbad = 0
-    for v in verdicts:
-        r = by_id[v["id"]]
-        for j, e in zip(v["bad"], v["exp"]):
-            p = r["probes"][j - 1]
-            nbad += 1
-            cls = P.probe_class(r["S"], p)
-            run.violation(f"{cls}|Answer",
-                          f"{p['q']}{p['a']} f={p['f']['t']} answered {p['res']} but the specification says {e}",
-                          {"kind": "query", "config": name,
-                           "consts": {k: (sorted(x) if isinstance(x, set) else x) for k, x in consts.items()},
-                           "caching": caching, "vertex_cls": vertex_cls, "path": r["path"], "state": r["S"],
-                           "probe": {k: p[k] for k in ("q", "a", "f", "g", "M", "attr")},
-                           "observed": p["res"], "expected": e})
-        for rel in v.get("rel", []):
-            nbad += 1
-            run.violation(f"{prop}:{rel}|Relational", f"logged answers in state {r['S']['ends']} violate {rel}",
-                          {"kind": "query-rel", "config": name, "path": r["path"], "state": r["S"], "rel": rel,
-                           "consts": {k: (sorted(x) if isinstance(x, set) else x) for k, x in consts.items()},
-                           "caching": caching, "vertex_cls": vertex_cls, "spec": spec})
-    nprobes = 0
-    for r in probed:
-        for p in r["probes"]:
-            run.count_class(P.probe_class(r["S"], p))
-            nprobes += 1
-    run.traces += len(probed)
-    run.evaluations += nprobes
-    if probed:
-        r = probed[len(probed) // 2]
-        if r["probes"]:
-            run.sample({"config": name, "state": {k: r["S"][k] for k in ("kind", "ends", "vl")},
-                        "probe": r["probes"][len(r["probes"]) // 2]})
-    st.update({"probes_failing": nbad, "t_generate_s": round(t1 - t0, 1), "t_execute_s": round(t2 - t1, 1),
-               "t_judge_s": round(t3 - t2, 1), "vertex_cls": vertex_cls, "caching": caching})
+    st.update({"probes_failing": agg["bad"], "t_generate_s": round(t1 - t0, 1), "t_execute_and_judge_s": round(t2 - t1, 1),
+               "t_judge_s": round(agg["judge_s"], 1), "vertex_cls": vertex_cls, "caching": caching})
     run.extra.setdefault("executions", []).append({"config": name, **st})
-    return probed
+    return st
 
 
 def replay_query(prop, path, wd):
